@@ -65,6 +65,9 @@
 (*                  are skipped: an inactive legacy mapping routes (routeInactiveLegacy)                   *)
 (*   listErrPrunes  GetMappingsByClientID treats a storage ERROR of a record read like "record gone" and   *)
 (*                  drops the id from the client's list (listDropsLive)                                    *)
+(*   unguardedIndexDelete  (round 4) deleteCascade holds the delete claim and has re-read the record, but no longer reads  *)
+(*                  the index entry before deleting it (D_iget / R_iget skipped): the RETRY of a delete that failed after  *)
+(*                  its index delete wipes the entry of the client that claimed the freed name meanwhile                   *)
 (*   updateHeals    UpdateMapping re-creates a missing index entry (SetNX) after its write - the update    *)
 (*                  twin of listHeals: racing the owner's delete it leaves an index entry for ever         *)
 EXTENDS Naturals, Sequences, FiniteSets, TLC, Json
@@ -430,7 +433,7 @@ DCUnlock(p) ==
 
 DGet2(p) ==  \* GetMapping under the claim
   /\ pc[p] = "D_get2"
-  /\ Goto(p, IF Has(rec[cur[p].id]) THEN "D_iget" ELSE "D_unlock")
+  /\ Goto(p, IF ~Has(rec[cur[p].id]) THEN "D_unlock" ELSE IF "unguardedIndexDelete" \in Deviate THEN "D_idx" ELSE "D_iget")
   /\ UNCHANGED <<cur, tmp, fault>> /\ U_store /\ U_leg /\ U_ghost
   /\ Log(St(p, "DelGet2", FALSE, "-"))
 
@@ -462,7 +465,7 @@ RLock(p) ==
 
 RGet(p) ==
   /\ pc[p] = "R_get"
-  /\ Goto(p, IF Has(rec[cur[p].id]) THEN "R_iget" ELSE "R_unlock")
+  /\ Goto(p, IF ~Has(rec[cur[p].id]) THEN "R_unlock" ELSE IF "unguardedIndexDelete" \in Deviate THEN "R_idx" ELSE "R_iget")
   /\ UNCHANGED <<cur, tmp, fault>> /\ U_store /\ U_leg /\ U_ghost
   /\ Log(St(p, "RbGet", FALSE, "-"))
 
